@@ -206,6 +206,9 @@ def build_routine(case):
     dep = pdc.Deployment_Types.STATIONARY if stationary else pdc.Deployment_Types.MOBILE
     method = make_method(case.get("method_class", "site"), dep, False, case["crews"], case["T"],
                          case["hours"], sites)
+    case["_crews_used"] = method.get_crew_count()
+    case["_crew_reports"] = len(method._crew_reports)
+    case["_crews_estimate"] = None if stationary else documented_crew_estimate(case)
     if stationary:
         # scheduling_utils.create_schedule: est_meth_daily_surveys = len(sites)
         case["_cap_used"] = len(sites)
@@ -216,6 +219,19 @@ def build_routine(case):
         sched = MobileSchedule(METHOD, sites, start, end, cap, method.get_crew_count())
     weather = StubWeather(len(sites))
     return sites, method, sched, weather
+
+
+def documented_crew_estimate(case):
+    """the year-round crew estimate as documented for a method without a configured crew count, computed from
+    the configuration only: ceil(#sites / (sites per crew-day x days between two surveys of a site))"""
+    import math
+
+    n = len(case["sites"])
+    t = case["T"]
+    avg_s = sum(s["S"] + t for s in case["sites"]) / n
+    avg_req = sum((s.get("freq") or 1) for s in case["sites"]) / n
+    per_day = (case["hours"] * 60 - t) / avg_s
+    return math.ceil(n / (per_day * (365 / avg_req)))
 
 
 def plan_dates(sched):
